@@ -233,3 +233,83 @@ Definition error_adds_ctype (e : error_response) : bool := negb (e_has_ctype e).
 (* Responder.write under .length: bytes beyond length are cut *)
 Definition error_sent_body (e : error_response) : bytes :=
   firstn (Z.to_nat (error_content_length e)) (e_body e).
+
+(* ---------------------------------------------------------------- (4b) HTTPError at every point *)
+
+(* What a WSGI application does, in order, as Responder.service sees it (one event per
+   service() call; for a plain callable the events up to its return happen inside the call):
+     EvStart st cl      start_response(status st, Content-Length cl or none)
+     EvYield b          the iterator yields b (b = [] is an idle yield: nothing is written)
+     EvRaise est eb     HTTPError with status est is raised; eb = ex.render()
+   and then the iterator is exhausted (StopIteration).  A raise ends the application: a dead
+   generator only raises StopIteration afterwards. *)
+Inductive wsgi_ev := EvStart (st : Z) (cl : option Z) | EvYield (b : bytes) | EvRaise (est : Z) (eb : bytes).
+
+Record rstate := {
+  rs_started : bool;          (* Responder.started                                   *)
+  rs_headed : bool;           (* Responder.headed: status line and headers are sent  *)
+  rs_status : Z;              (* status that is / will be in the head                *)
+  rs_len : option Z;          (* Responder.length                                    *)
+  rs_sent : bytes;            (* body bytes handed to the connection (before chunk framing) *)
+  rs_ended : bool;            (* Responder.ended                                     *)
+  rs_broken : bool            (* write() before start_response(): AssertionError     *)
+}.
+Definition rs_init : rstate :=
+  {| rs_started := false; rs_headed := false; rs_status := 200; rs_len := None; rs_sent := [];
+     rs_ended := false; rs_broken := false |}.
+
+(* Responder.write(msg) for msg <> b'' (or the final b''): head first, then at most .length bytes *)
+Definition do_write (s : rstate) (b : bytes) : rstate :=
+  if negb (rs_started s) then
+    {| rs_started := false; rs_headed := rs_headed s; rs_status := rs_status s; rs_len := rs_len s;
+       rs_sent := rs_sent s; rs_ended := rs_ended s; rs_broken := true |}
+  else
+    let room := match rs_len s with
+                | Some n => firstn (Z.to_nat n - length (rs_sent s)) b
+                | None => b
+                end in
+    {| rs_started := true; rs_headed := true; rs_status := rs_status s; rs_len := rs_len s;
+       rs_sent := rs_sent s ++ room; rs_ended := rs_ended s; rs_broken := rs_broken s |}.
+
+Definition set_ended (s : rstate) (e : bool) : rstate :=
+  {| rs_started := rs_started s; rs_headed := rs_headed s; rs_status := rs_status s; rs_len := rs_len s;
+     rs_sent := rs_sent s; rs_ended := e; rs_broken := rs_broken s |}.
+
+Definition len_reached (s : rstate) : bool :=
+  match rs_len s with Some n => (n <=? Z.of_nat (length (rs_sent s))) | None => false end.
+
+(* one Responder.service() call consuming one event (nothing happens once .ended) *)
+Definition serve_ev (s : rstate) (e : wsgi_ev) : rstate :=
+  if rs_ended s || rs_broken s then s else
+  match e with
+  | EvStart st cl =>
+      {| rs_started := true; rs_headed := rs_headed s; rs_status := st; rs_len := cl;
+         rs_sent := rs_sent s; rs_ended := false; rs_broken := rs_broken s |}
+  | EvYield [] => s                                            (* if msg: ... *)
+  | EvYield b => let s' := do_write s b in set_ended s' (len_reached s')
+  | EvRaise est eb =>
+      if rs_headed s then s                                    (* logged, nothing sent *)
+      else                                                     (* start(..., exc_info); write(msg); ended *)
+        set_ended (do_write {| rs_started := true; rs_headed := false; rs_status := est;
+                               rs_len := Some (Z.of_nat (length eb)); rs_sent := [];
+                               rs_ended := false; rs_broken := rs_broken s |} eb) true
+  end.
+
+(* the service() call that meets StopIteration: write(b''), ended *)
+Definition serve_stop (s : rstate) : rstate :=
+  if rs_ended s || rs_broken s then s else set_ended (do_write s []) true.
+
+Definition serve_app (evs : list wsgi_ev) : rstate := serve_stop (fold_left serve_ev evs rs_init).
+
+(* what reaches the client: status, declared length, body bytes, and whether the response is
+   complete (chunked: terminated by the empty chunk; fixed length: all declared bytes sent) *)
+Definition resp_complete (s : rstate) : bool :=
+  rs_headed s && match rs_len s with
+                 | Some n => Z.of_nat (length (rs_sent s)) =? n
+                 | None => rs_ended s
+                 end.
+Definition client_view (s : rstate) : Z * option Z * bytes * bool :=
+  (rs_status s, rs_len s, rs_sent s, resp_complete s).
+
+Definition idle_ev (e : wsgi_ev) : bool :=
+  match e with EvStart _ _ => true | EvYield [] => true | _ => false end.
